@@ -312,7 +312,7 @@ func classify(rec *Record) (key, what string) {
 		}
 		return "panic/" + rec.where + "/" + input, "the copier panics: " + rec.Msg
 	case "error":
-		return "error/" + errClass(rec.Msg), "the copier returns an error for a conforming source: " + rec.Msg
+		return "error/" + errClass(rec.errText), "the copier returns an error for a conforming source: " + rec.Msg
 	case "closeerr":
 		return "close-error/" + errClass(rec.Msg), "Writer.Close fails after the copy: " + rec.Msg
 	case "reopen-strict", "reopen-lib", "extract":
@@ -348,6 +348,8 @@ func classify(rec *Record) (key, what string) {
 
 func errClass(msg string) string {
 	switch {
+	case strings.Contains(msg, "object in object stream"):
+		return "filter-object-in-object-stream"
 	case strings.Contains(msg, "non-Identity /Crypt"):
 		return "crypt-filter-unsupported"
 	case strings.Contains(msg, "length mismatch"):
